@@ -281,6 +281,8 @@ theorem C02.applyRes_cmds (cfg : Cfg) (pol : Policy) (step : Nat) (tickEv : Ev) 
   | failed exc failedAt =>
     simp only [applyRes]
     split
+    · exact ⟨[], by simp⟩
+    split
     · exact ⟨_, rfl⟩
     all_goals
       split
@@ -316,6 +318,8 @@ theorem C02.applyRes_rc (cfg : Cfg) (pol : Policy) (step : Nat) (tickEv : Ev) (d
     | some ev => simp only [applyRes]; split <;> rfl
   | failed exc failedAt =>
     simp only [applyRes]
+    split
+    · rfl
     split
     · rfl
     all_goals
